@@ -5,6 +5,7 @@ package main
 // sets from which sources, which options it adds (in order), under which conditions.
 
 import (
+	"go/token"
 	"encoding/json"
 	"fmt"
 	"os"
@@ -22,6 +23,7 @@ type e6Ctx struct {
 	gc *guardCache
 	// allCalls: also record calls of in-module functions that do not touch the object (exchange steps)
 	allCalls bool
+	depth    int
 }
 
 func newE6(c *Ctx, f *ssa.Function) *e6Ctx {
@@ -80,18 +82,10 @@ func (e *e6Ctx) conds(b *ssa.BasicBlock, pre map[string]bool) string {
 		if iff == nil {
 			continue
 		}
-		s := e.path(f.cond)
-		if !f.pol {
-			s = "!" + s
-		}
+		s := canonCond(e.path(f.cond), f.pol)
 		if okEdge, is := e.errorGuard(iff); is {
 			// a precondition: holds on the non-error edge
-			want := okEdge == 0
-			p := e.path(f.cond)
-			if !want {
-				p = "!" + p
-			}
-			pre[p] = true
+			pre[canonCond(e.path(f.cond), okEdge == 0)] = true
 			continue
 		}
 		// loop conditions of range/index loops are not effects
@@ -106,6 +100,35 @@ func (e *e6Ctx) conds(b *ssa.BasicBlock, pre map[string]bool) string {
 		return ""
 	}
 	return "[if " + strings.Join(cs, " && ") + "] "
+}
+
+// canonCond: a rendered condition with its polarity folded in: "(A==B)" false → "(A!=B)", "(A!=B)" false →
+// "(A==B)", anything else false → "!cond"; the operands of == / != in lexical order
+func canonCond(s string, pol bool) string {
+	if outerParens(s) {
+		in := s[1 : len(s)-1]
+		for _, op := range []string{"==", "!="} {
+			if i := splitTop(in, op); i >= 0 {
+				l, r := in[:i], in[i+2:]
+				if l > r {
+					l, r = r, l
+				}
+				o := op
+				if !pol {
+					if op == "==" {
+						o = "!="
+					} else {
+						o = "=="
+					}
+				}
+				return "(" + l + o + r + ")"
+			}
+		}
+	}
+	if !pol {
+		return "!" + s
+	}
+	return s
 }
 
 // effects of f on the object `obj` (and values derived by field address)
@@ -152,6 +175,9 @@ func (e *e6Ctx) effects(isObj func(ssa.Value) bool, depth int) ([]string, map[st
 				} else {
 					// plain function of the module
 					if sf := cc.StaticCallee(); e.allCalls && sf != nil && inModule(sf) && sf.Signature.Recv() == nil && !strings.HasPrefix(sf.Name(), "Opt") && !strings.HasPrefix(sf.Name(), "With") && !strings.HasPrefix(sf.Name(), "Is") && sf.Name() != "PrependModifiers" {
+						if _, isHelper := e.expandHelper(x, func(sub *e6Ctx, v ssa.Value) string { return "" }); isHelper {
+							continue
+						}
 						var as []string
 						for _, a := range cc.Args {
 							as = append(as, e.argDesc(a))
@@ -369,6 +395,9 @@ func (e *e6Ctx) modDesc(v ssa.Value) string {
 	v = stripIface(v)
 	switch t := v.(type) {
 	case *ssa.Call:
+		if s, ok := e.expandHelper(t, func(sub *e6Ctx, v ssa.Value) string { return sub.modDesc(v) }); ok {
+			return s
+		}
 		if sf := t.Call.StaticCallee(); sf != nil {
 			var as []string
 			for _, a := range t.Call.Args {
@@ -382,9 +411,60 @@ func (e *e6Ctx) modDesc(v ssa.Value) string {
 	return e.path(v)
 }
 
+// expandHelper: an unexported in-module function with a single return and no effect of its own is a named
+// sub-expression: its call is rendered as the value it returns, with its parameters replaced by the arguments
+func (e *e6Ctx) expandHelper(cl *ssa.Call, render func(sub *e6Ctx, v ssa.Value) string) (string, bool) {
+	sf := cl.Call.StaticCallee()
+	if sf == nil || !inModule(sf) || sf.Blocks == nil || token.IsExported(sf.Name()) || sf.Parent() != nil || e.depth >= 3 {
+		return "", false
+	}
+	rets := returnsOf(sf)
+	if len(rets) != 1 || len(rets[0].Results) != 1 {
+		return "", false
+	}
+	pure := true
+	allInstrs(sf, func(in ssa.Instruction) {
+		switch t := in.(type) {
+		case *ssa.Store:
+			if al, _, ok := addrPath(t.Addr); !ok || al == nil {
+				if ia, ok2 := t.Addr.(*ssa.IndexAddr); ok2 {
+					if _, isAl := ia.X.(*ssa.Alloc); isAl {
+						return
+					}
+				}
+				pure = false
+			}
+		case *ssa.MapUpdate, *ssa.Send, *ssa.Go, *ssa.Defer, *ssa.Panic:
+			pure = false
+		case *ssa.Call:
+			// a call through a function value or an interface has unknown effects
+			if t.Call.IsInvoke() {
+				pure = false
+			} else if _, isB := t.Call.Value.(*ssa.Builtin); !isB && t.Call.StaticCallee() == nil {
+				pure = false
+			}
+		}
+	})
+	if !pure {
+		return "", false
+	}
+	sub := newE6(e.c, sf)
+	sub.depth = e.depth + 1
+	sub.allCalls = e.allCalls
+	for i, p := range sf.Params {
+		if i < len(cl.Call.Args) {
+			sub.px.subst[e.c.Sx().Of(p).String()] = e.argDesc(cl.Call.Args[i])
+		}
+	}
+	return render(sub, rets[0].Results[0]), true
+}
+
 func (e *e6Ctx) argDesc(a ssa.Value) string {
 	a = stripIface(a)
 	if cl, ok := a.(*ssa.Call); ok {
+		if s, ok := e.expandHelper(cl, func(sub *e6Ctx, v ssa.Value) string { return sub.argDesc(v) }); ok {
+			return s
+		}
 		if sf := cl.Call.StaticCallee(); sf != nil && sf.Signature.Recv() == nil && inModule(sf) {
 			var as []string
 			for _, x := range cl.Call.Args {
@@ -456,25 +536,26 @@ func e6Check(c *Ctx, rule, name string, pos string, got []string, rows map[strin
 	for _, fb := range row.Forbidden {
 		r.Check(!strings.Contains(all, fb), rule, name+": "+row.Source+" forbids `"+fb+"`", pos, "absent from the extracted effects", "the forbidden effect is present")
 	}
-	if strings.Join(got, "\n") == strings.Join(row.Lines, "\n") {
+	if strings.Join(e6NormLines(got), "\n") == strings.Join(e6NormLines(row.Lines), "\n") {
 		r.OK(rule, name+": effects equal the reviewed recipe", pos, "E6 extraction = spec/builders.json", strings.Join(got, " ; "))
 		return
 	}
 	// diff
 	var diff []string
 	gm, wm := map[string]bool{}, map[string]bool{}
-	for _, l := range got {
+	ng, nw := e6NormLines(got), e6NormLines(row.Lines)
+	for _, l := range ng {
 		gm[l] = true
 	}
-	for _, l := range row.Lines {
+	for _, l := range nw {
 		wm[l] = true
 	}
-	for _, l := range row.Lines {
+	for _, l := range nw {
 		if !gm[l] {
 			diff = append(diff, "missing:  "+l)
 		}
 	}
-	for _, l := range got {
+	for _, l := range ng {
 		if !wm[l] {
 			diff = append(diff, "new:      "+l)
 		}
@@ -483,4 +564,31 @@ func e6Check(c *Ctx, rule, name string, pos string, got []string, rows map[strin
 		diff = append(diff, "same effects in a different order")
 	}
 	r.Violation(rule, name+": effects equal the reviewed recipe", pos, "effects differ from the reviewed recipe ("+row.Source+"):\n      "+strings.Join(diff, "\n      "))
+}
+
+// e6NormLines: the form in which fingerprints are compared: a sorted set; the condition of a success return
+// (only obj / nil / nothing returned) is dropped — which paths end successfully is fixed by the preconditions
+func e6NormLines(ls []string) []string {
+	var out []string
+	for _, l := range ls {
+		if i := strings.Index(l, "] return"); strings.HasPrefix(l, "[if ") && i > 0 {
+			rest := strings.TrimSpace(l[i+len("] return"):])
+			okRet := true
+			for _, v := range strings.Split(rest, ",") {
+				v = strings.TrimSpace(v)
+				if v != "" && v != "obj" && v != "nil" {
+					okRet = false
+				}
+			}
+			if okRet {
+				l = strings.TrimSpace("return " + rest)
+			}
+		}
+		if l == "return" {
+			l = "return "
+		}
+		out = append(out, l)
+	}
+	sort.Strings(out)
+	return dedupe(out)
 }
